@@ -217,7 +217,20 @@ def run_shards(name, shards, define, evaluator, timeout=900):
             running.append((si, p))
         si, p = running.pop(0)
         outp, _ = p.communicate()
-        if p.returncode != 0:
+        if p.returncode != 0 and p.returncode in (124, 137, -9, -15, 143) or (p.returncode != 0 and not outp.strip()):
+            # killed or timed out without a word from Coq (a loaded machine, the OOM killer): once more, alone, with twice the time
+            while running:
+                rj, pj = running.pop(0)
+                pending.insert(0, (rj, paths[rj]))
+                pj.kill()
+                pj.communicate()
+            q_ = subprocess.run(['timeout', str(2 * timeout), 'coqc', '-Q', COQ, 'GP', '-o', paths[si] + 'o', paths[si]],
+                                stdout=subprocess.PIPE, stderr=subprocess.STDOUT, text=True, cwd=d)
+            outp = q_.stdout
+            if q_.returncode != 0:
+                errors.append((si, f'coqc exit status {q_.returncode} (after a retry): ' + outp[-2000:]))
+                continue
+        elif p.returncode != 0:
             errors.append((si, outp[-2000:]))
             continue
         m = re.search(r'=\s*(.*?)\s*:\s*list', outp, re.S)
